@@ -500,6 +500,15 @@ def run(ctx):
     from ..lints import check_caches
 
     check_caches(ctx, "C12-D3 who-writes", ['wavefunction'])
+    # no function of the module keeps state between calls (a module-level table of amplitude vectors handed to several objects makes
+    # one object's accepted assignment change another's amplitudes), and no query method remembers a result on the mutable receiver
+    from ..state import check_hidden_state
+
+    wmod = ctx.repo.module("wavefunction")
+    wfuncs = list(wmod.functions.values())
+    writers = {"__init__", "__setitem__", "__post_init__"}
+    check_hidden_state(ctx, "C12-D3 who-writes", [f for f in wfuncs if f.name in writers or f.cls is None], effects_for(ctx))
+    check_hidden_state(ctx, "C12-D3 who-writes", [f for f in wfuncs if f.name not in writers and f.cls is not None], effects_for(ctx), receiver_caches=True)
     check_dicke(ctx)
     ctx.floor("C12-D7", 7)
     check_bit_reversal(ctx)
